@@ -610,10 +610,11 @@ class TreeGen(Gen):
         body = []
         for _ in range(rng.randint(1, 2)):
             r = rng.random()
-            if r < 0.25 and not lf["s"]:
-                # element vs index
+            if r < 0.25:
+                # element vs index arithmetic (the index is a signed int: 'i - k' goes negative)
                 body.append(EXPR(BIN(rng.choice(REL), {"t": "f", "p": elem["_p"]},
-                                     BIN("+", {"t": "idx"}, LIT(rng.randint(0, 3))))))
+                                     BIN(rng.choice(["+", "-"]) if lf["s"] else "+", {"t": "idx"},
+                                         LIT(rng.randint(0, 3))))))
             elif r < 0.45 and lf.get("sz", 0) >= 2:
                 # neighbour relation guarded by the index
                 nb = {"t": "f", "p": [lf["n"], _loopvar(0, False, -1)]}
